@@ -1,6 +1,7 @@
 (* Proofs about FixKustomization / FixKustomizationPreMarshalling on the record (Edit/Fix.v) and
    about `kustomize edit fix` on a file. *)
 From KV Require Import Edit.Cmd Edit.KustfileProofs Edit.AssocProofs Edit.OpsProofs Edit.CmdProofs Edit.LawsProofs.
+From KV Require Export Edit.FixCmd.
 Local Open Scope list_scope.
 
 (* ---------- load-time spellings: bases, imageTags, env ---------- *)
@@ -137,20 +138,6 @@ Proof.
   - destruct (labels_conflict _ _); [discriminate|]. injection H as H. subst k'. split; reflexivity.
   - injection H as H. subst k'. split; reflexivity.
 Qed.
-
-(* ---------- `kustomize edit fix` on a file (RunFix without --vars) ---------- *)
-Definition fix_cmd (e : env) (rk : res kust) : res (option kust) :=
-  do k <- rk; do k' <- fix_premarshal (file_exists e) k; Ok (Some k').
-
-Definition fix_file (e : env) (U : file -> res kust) (R : kust -> string -> list line) (f : file)
-  : oclass * file :=
-  match fix_cmd e (read_typed U f) with
-  | Ok (Some k') => (COk, write_file R f k')
-  | Ok None => (COk, f)
-  | Err => (CErr, f)
-  | Panic => (CPanic, f)
-  | Diverge => (CDiverge, f)
-  end.
 
 (* what `edit fix` writes reads back as the fixed record (same go-yaml hypotheses as C17_content) *)
 Theorem fix_file_content :
